@@ -32,6 +32,9 @@ def rand_map(rng):
         else:
             L = rng.normal(0, 1, size=(2, 2))
         if np.linalg.cond(L) <= 100 and abs(np.linalg.det(L - np.eye(2))) > 1e-2:
+            if rng.random() < 0.25:
+                # a small strain / rotation: L - I is tiny but as well conditioned as before, the fixed point is well defined
+                L = np.eye(2) + float(rng.choice([1e-3, 1e-4, 2e-5])) * (L - np.eye(2))
             return L, rng.uniform(-40, 40, 2)
 
 
@@ -45,7 +48,7 @@ def gen(rng):
             break
     L, t = rand_map(rng)
     centre = [None, np.zeros(2), rng.uniform(-30, 60, 2)][int(rng.integers(0, 3))]
-    w = [None, np.full(n, float(rng.uniform(0.1, 5))), rng.uniform(0.1, 10, n)][int(rng.integers(0, 3))]
+    w = [None, np.full(n, float(rng.uniform(0.1, 5))), rng.uniform(0.1, 10, n), rng.integers(1, 200, n).astype(float)][int(rng.integers(0, 4))]
     return ref, L, t, centre, w
 
 
@@ -76,6 +79,16 @@ def stmt_failure(ref, L, t, centre, w, noise=None):
     if noise is not None:
         pk = peaks + noise
         fit2 = grm.get_transformation(ref, pk, center=centre, weighs=w)
+        if w is not None and np.array_equal(w, np.rint(w)):
+            # whole-number weights (counts) given in a narrow integer dtype must give the same fit as the same values in float64
+            for dt in (np.uint8, np.uint16, np.int32):
+                if w.max() <= np.iinfo(dt).max:
+                    try:
+                        fit_w = grm.get_transformation(ref, pk, center=centre, weighs=w.astype(dt))
+                    except Exception as e:  # noqa
+                        return 'raised %s for %s weights: %s' % (type(e).__name__, np.dtype(dt).name, e)
+                    if np.abs(fit_w - fit2).max() > 1e-8 * sc:
+                        return 'weights %s given as %s change the fit (max deviation %.4g)' % (w[:6].tolist(), np.dtype(dt).name, np.abs(fit_w - fit2).max())
         c = np.zeros(2) if centre is None else centre
         A = np.hstack([ref - c, np.ones((len(ref), 1))])
         ww = np.ones(len(ref)) if w is None else w
@@ -93,20 +106,24 @@ def stmt_failure(ref, L, t, centre, w, noise=None):
         c = grm.find_center(M)
     except Exception as e:  # noqa
         return 'find_center raised %s' % type(e).__name__
+    if not np.isfinite(c).all():
+        return 'find_center returned a non-finite centre %s for a map whose linear part has no eigenvalue 1 (L - I = %s)' % (np.asarray(c).tolist(), (L - np.eye(2)).tolist())
     c2 = grm.do_transformation(M, np.array([c]))[0]
     if np.abs(c2 - c).max() > 1e-7 * max(1.0, np.abs(c).max()) * np.linalg.cond(L - np.eye(2)):
         return 'centre %s of the transformation is not its fixed point: it maps to %s' % (c.tolist(), c2.tolist())
     return None
 
 
-def mk_replay(ref, L, t, centre, w, fail):
+def mk_replay(ref, L, t, centre, w, fail, noise=None):
     return {'kind': 'input', 'call': 'get_transformation / do_transformation / find_center',
-            'args': {'ref': ref.tolist(), 'L': L.tolist(), 't': t.tolist(), 'center': None if centre is None else centre.tolist(), 'weights': None if w is None else w.tolist()}, 'failure': fail}
+            'args': {'ref': ref.tolist(), 'L': L.tolist(), 't': t.tolist(), 'center': None if centre is None else centre.tolist(), 'weights': None if w is None else w.tolist(),
+                     'noise': None if noise is None else noise.tolist()}, 'failure': fail}
 
 
 def replay(body):
     a = body['args']
-    fail = stmt_failure(np.array(a['ref']), np.array(a['L']), np.array(a['t']), None if a['center'] is None else np.array(a['center']), None if a['weights'] is None else np.array(a['weights']))
+    fail = stmt_failure(np.array(a['ref']), np.array(a['L']), np.array(a['t']), None if a['center'] is None else np.array(a['center']), None if a['weights'] is None else np.array(a['weights']),
+                        None if a.get('noise') is None else np.array(a['noise']))
     print(json.dumps({'failure_now': fail}, indent=1))
     if fail:
         print('VIOLATION property=C20 replay=(given)')
@@ -174,7 +191,7 @@ def run(ctx):
         ctx.hist('centre', 'none' if centre is None else 'given')
         ctx.hist('weights', 'none' if w is None else ('uniform' if np.ptp(w) == 0 else 'random'))
         if fail:
-            ctx.violation('input', fail, mk_replay(ref, L, t, centre, w, fail))
+            ctx.violation('input', fail, mk_replay(ref, L, t, centre, w, fail, noise))
             break
     return ctx.finish(
         LEVEL,
